@@ -82,6 +82,13 @@ def make_loop_prog(rng, rng_spec, kind, nest=1, bounds_via_vars=False):
         prog.append(["int", "lo", ["n", a]])
         prog.append(["int", "hi", ["n", b]])
         rng_spec = ["range", "lo", "hi", st]
+    shadow = kind in ("local", "literal", "intvar") and rng.random() < 0.4
+    if shadow:
+        # an outer name that the loop body declares again (shadows); it is read after the loop
+        if kind == "intvar":
+            prog.append(["int", "kk", ["n", rng.randint(30, 40)]])
+        else:
+            prog.append(["sig", "tmp" if kind == "local" else "kv", ["p", ["b", "+", ["v", "x"], ["n", 100]], types.fresh()]])
     if nest == 1:
         body = body_for(rng, types, ["b", "*", ["v", "i"], ["n", 2]], ["n", 20], "i", kind)
         prog.append(["for", "i", rng_spec, body])
@@ -94,6 +101,10 @@ def make_loop_prog(rng, rng_spec, kind, nest=1, bounds_via_vars=False):
         prog.append(["for", "i", rng_spec,
                      [["for", "j", ["list", rng.sample([0, 1, 2, 3], k=rng.randint(0, 3))],
                        [["for", "k", ["range", 0, rng.randint(1, 3), None], inner]]]]])
+    if shadow:
+        outer = {"local": ["v", "tmp"], "literal": ["v", "kv"], "intvar": ["v", "kk"]}[kind]
+        prog.append(["sig", "after", ["p", ["b", "+", ["v", "x"], outer] if kind == "intvar" else ["b", "+", outer, ["n", 1]], types.fresh()]])
+        return prog
     # something after the loop that reuses a body-local name at top level
     prog.append(["sig", "tmp", ["p", ["b", "+", ["v", "x"], ["n", 1]], types.fresh()]])
     return prog
@@ -137,8 +148,11 @@ def gen_cases(tier, seed):
             else:
                 spec = ["range", a, a + st * ln + (sub.choice([0, 1]) if st > 0 else sub.choice([0, -1])), st]
         prog = make_loop_prog(sub, spec, kind, nest, bounds_via_vars=sub.random() < 0.3)
+        # a name declared at top level AND in the loop body labels two things: the reference is compared through
+        # `after` (which reads the outer one), not through the ambiguous label
         cases.append(_mk(prog, "body_%s_nest%d" % (kind, nest), sub, nval,
-                         edges={"x": list(range(-12, 40)), "en": [0, 1, 2, 3, 6]}, memory=(kind == "memory")))
+                         edges={"x": list(range(-12, 40)), "en": [0, 1, 2, 3, 6]}, memory=(kind == "memory"),
+                         skip_names=["tmp", "kv", "kk"] if any(s_[0] == "sig" and s_[1] == "after" for s_ in prog) else []))
     for i, c in enumerate(cases):
         c["id"] = i
     return cases
